@@ -1,2 +1,196 @@
-(* C05 — stub *)
-From Zap Require Import Base.Wire C05.Model.
+(* C05: the wire-level link (oracle accepts the model's observation on every input) and the
+   refutations of the full statements on the model of the code before the fix commits.
+   The theorems about the core tree itself are in C05/CoreProofs.v. *)
+From Coq Require Import List Bool ZArith Lia Arith.
+From Coq.Strings Require Import Byte.
+Import ListNotations.
+From Zap Require Import Base.Wire C05.Cores C05.CoreProofs C05.Model.
+Open Scope Z_scope.
+
+(* ---------------- induction over S-expressions ---------------- *)
+Section SxInd.
+  Variable P : sx -> Prop.
+  Hypothesis HZ : forall z, P (SZ z).
+  Hypothesis HB : forall b, P (SB b).
+  Hypothesis HL : forall l, Forall P l -> P (SL l).
+  Fixpoint sx_ind' (s : sx) : P s :=
+    match s with
+    | SZ z => HZ z
+    | SB b => HB b
+    | SL l => HL l ((fix go (l : list sx) : Forall P l :=
+                      match l with [] => Forall_nil _ | x :: t => Forall_cons _ (sx_ind' x) (go t) end) l)
+    end.
+End SxInd.
+
+Lemma forallb_pointwise {A} (f g : A -> bool) l : (forall x, f x = g x) -> forallb f l = forallb g l.
+Proof. intros H. induction l as [|x r IH]; [reflexivity|]. cbn [forallb]. rewrite H, IH. reflexivity. Qed.
+
+Lemma spec_increase_ok_eq w c en : increase_ok w c en = spec_increase_ok w c en.
+Proof.
+  unfold increase_ok, spec_increase_ok. apply forallb_pointwise. intros l.
+  rewrite enabled_accepts. destruct (accepts w c l), (on w en l); reflexivity.
+Qed.
+
+Lemma build_with_ext ok1 ok2 w :
+  (forall w c en, ok1 w c en = ok2 w c en) -> forall s, build_with ok1 w s = build_with ok2 w s.
+Proof.
+  intros Hok s. induction s as [z|b|l IH] using sx_ind'; [reflexivity|reflexivity|].
+  destruct l as [|t args]; [reflexivity|]. destruct t as [tag|?|?]; [|reflexivity|reflexivity].
+  apply Forall_inv_tail in IH.
+  assert (Hmap : map (build_with ok1 w) args = map (build_with ok2 w) args).
+  { induction IH as [|x r Hx _ IHr]; [reflexivity|]. cbn [map]. rewrite Hx, IHr. reflexivity. }
+  assert (H1 : forall c, args = [c] -> build_with ok1 w c = build_with ok2 w c).
+  { intros c ->. apply (Forall_inv IH). }
+  assert (H2 : forall c x, args = [c; x] -> build_with ok1 w c = build_with ok2 w c).
+  { intros c x ->. apply (Forall_inv IH). }
+  cbn [build_with].
+  destruct tag as [|p|p]; [reflexivity| |reflexivity].
+  destruct p as [[[|p|]|[|p|]|]|[[|p|]|[|p|]|]|]; try reflexivity.
+  - (* 7 *) destruct args as [|c [|? ?]]; try reflexivity. rewrite (H1 c eq_refl). reflexivity.
+  - (* 5 *) destruct args as [|c [|? ?]]; try reflexivity. rewrite (H1 c eq_refl). reflexivity.
+  - (* 3 *) destruct args as [|c [|h [|? ?]]]; try reflexivity. rewrite (H2 c h eq_refl). reflexivity.
+  - (* 6 *) destruct args as [|c [|? ?]]; try reflexivity. rewrite (H1 c eq_refl). reflexivity.
+  - (* 4 *) destruct args as [|c [|en [|? ?]]]; try reflexivity. rewrite (H2 c en eq_refl).
+    destruct (build_with ok2 w c) as [c' n]. rewrite Hok. reflexivity.
+  - (* 2 *) rewrite Hmap. reflexivity.
+Qed.
+
+(* ---------------- decoding the model's own encoding ---------------- *)
+Lemma nat_list_eqb_refl l : nat_list_eqb l l = true.
+Proof. induction l as [|x r IH]; [reflexivity|]. cbn [nat_list_eqb]. rewrite Nat.eqb_refl, IH. reflexivity. Qed.
+Lemma sx_n_of_nat n : sx_n (of_nat n) = n.
+Proof. unfold sx_n, of_nat, sx_z. apply Nat2Z.id. Qed.
+Lemma dec_enc_event x : dec_event (enc_event x) = x.
+Proof. destruct x as [i|h]; unfold dec_event, enc_event, sx_nth; cbn [sx_l nth sx_z Z.eqb]; rewrite sx_n_of_nat; reflexivity. Qed.
+Lemma dec_enc_events ws : map dec_event (map enc_event ws) = ws.
+Proof. induction ws as [|x r IH]; [reflexivity|]. cbn [map]. rewrite dec_enc_event, IH. reflexivity. Qed.
+Lemma map_sx_n_of_nat {A} (f : A -> nat) l : map sx_n (map (fun a => of_nat (f a)) l) = map f l.
+Proof. induction l as [|x r IH]; [reflexivity|]. cbn [map]. rewrite sx_n_of_nat, IH. reflexivity. Qed.
+
+Lemma leaves_of_visible obs ws : leaves_of (filter (visible obs) ws) = filter (is_io obs) (leaves_of ws).
+Proof.
+  induction ws as [|[i|h] r IH]; [reflexivity| |].
+  - cbn [filter visible]. change (leaves_of (WLeaf i :: r)) with (i :: leaves_of r). cbn [filter].
+    destruct (is_io obs i); [change (leaves_of (WLeaf i :: filter (visible obs) r)) with (i :: leaves_of (filter (visible obs) r))|]; rewrite IH; reflexivity.
+  - cbn [filter visible]. change (leaves_of (WHook h :: filter (visible obs) r)) with (leaves_of (filter (visible obs) r)).
+    change (leaves_of (WHook h :: r)) with (leaves_of r). exact IH.
+Qed.
+Lemma hooks_of_visible obs ws : hooks_of (filter (visible obs) ws) = hooks_of ws.
+Proof.
+  induction ws as [|[i|h] r IH]; [reflexivity| |].
+  - cbn [filter visible]. change (hooks_of (WLeaf i :: r)) with (hooks_of r).
+    destruct (is_io obs i); [change (hooks_of (WLeaf i :: filter (visible obs) r)) with (hooks_of (filter (visible obs) r))|]; exact IH.
+  - cbn [filter visible]. change (hooks_of (WHook h :: filter (visible obs) r)) with (h :: hooks_of (filter (visible obs) r)).
+    change (hooks_of (WHook h :: r)) with (h :: hooks_of r). rewrite IH. reflexivity.
+Qed.
+
+Lemma level_ok_b_true w c v : level_ok w c v -> level_ok_b w c v = true.
+Proof.
+  intros [Ha Hb]. unfold level_ok_b. apply andb_true_iff. split.
+  - apply forallb_forall. intros l Hin. apply is_valid_In in Hin.
+    destruct (l <? v) eqn:E; [|reflexivity]. apply Z.ltb_lt in E. cbn [negb orb].
+    specialize (Ha l Hin E). apply accepts_false in Ha. rewrite Ha. reflexivity.
+  - destruct (is_valid v) eqn:E; [|reflexivity]. cbn [negb orb]. apply accepts_true. apply Hb. reflexivity.
+Qed.
+Lemma cells_in_range_b_true w c : cells_in_range_b w c = true -> cells_in_range w c.
+Proof.
+  unfold cells_in_range_b, cells_in_range. rewrite forallb_forall. intros H a Hin.
+  specialize (H a Hin). apply andb_true_iff in H. rewrite !Z.leb_le in H. exact H.
+Qed.
+
+Lemma spec_model_op obs w c o : spec_op obs w c o (model_op obs w c o) = true.
+Proof.
+  destruct o as [a v|f l|l| |n|]; cbn [spec_op model_op]; try reflexivity.
+  - unfold sx_nth. cbn [sx_l nth].
+    rewrite dec_enc_events, leaves_of_visible, hooks_of_visible, map_sx_n_of_nat, sx_n_of_nat.
+    rewrite logger_delivery_thm, logger_hooks_thm, !nat_list_eqb_refl. cbn [andb].
+    unfold payload_evals. rewrite logger_delivery_thm.
+    destruct (accepts w c l) eqn:A.
+    + rewrite (reaches_check_accepted w c f l A), andb_true_r. apply Nat.eqb_eq. lia.
+    + assert (delivered w c l = []) as -> by (apply accepts_false; exact A).
+      cbn [filter length]. destruct (l <? DPanicL) eqn:E.
+      * apply Z.ltb_lt in E.
+        assert (formats_message f && reaches_check w c f l = false) as ->.
+        { destruct (formats_message f) eqn:F; [|reflexivity]. cbn [andb].
+          apply reaches_check_disabled; [destruct f; cbn in F |- *; congruence|exact E|rewrite enabled_accepts; exact A]. }
+        destruct (carries_fields f); reflexivity.
+      * destruct (formats_message f); cbn [andb]; [|destruct (carries_fields f); reflexivity].
+        destruct (reaches_check w c f l), (carries_fields f); reflexivity.
+  - rewrite enabled_accepts. unfold of_bool, sx_bool, sx_z. destruct (accepts w c l); reflexivity.
+  - unfold sx_nth. cbn [sx_l nth sx_z]. rewrite Z.eqb_refl, (level_ok_b_true _ _ _ (level_consistent_thm w c)). cbn [andb].
+    destruct (cells_in_range_b w c) eqn:R; [|reflexivity]. cbn [negb orb].
+    apply Z.eqb_eq. apply level_exact_thm. apply cells_in_range_b_true. exact R.
+  - unfold grpc_v. rewrite enabled_accepts. unfold of_bool, sx_bool, sx_z. destruct (accepts w c (grpc_level n)); reflexivity.
+Qed.
+
+Lemma spec_model_ops obs ops : forall w c, spec_ops obs w c ops (model_ops obs w c ops) = true.
+Proof.
+  induction ops as [|o r IH]; intros w c; [reflexivity|]. cbn [spec_ops model_ops].
+  rewrite spec_model_op. cbn [andb]. destruct (next_state w c o) as [w' c']. apply IH.
+Qed.
+
+Theorem spec_model i : spec i (model i) = true.
+Proof.
+  unfold spec, model.
+  rewrite <- (build_with_ext increase_ok spec_increase_ok _ spec_increase_ok_eq).
+  destruct (build_with increase_ok (world_of (sx_nth i 1)) (sx_nth i 0)) as [c nerr].
+  unfold sx_nth at 1 4. cbn [sx_l nth]. rewrite sx_n_of_nat, Nat.eqb_refl. cbn [andb].
+  apply spec_model_ops.
+Qed.
+
+(* ================= the code before the fixes: the full statements fail ================= *)
+Definition w0 : world := fun _ => 0.
+
+(* (#7) hooked.Check tested [downstream != nil]: after an accepting tee branch the entry passed in
+   is already non-nil, so the hooks of a declining core fire *)
+Definition hook_once_orig_full : Prop :=
+  forall w c l, hooks_of (cores_of (check_orig w c l None)) = hooks_due w c l.
+Definition hook_witness : core := Tee [Leaf 0 (ELvl DebugL); Hooked (Leaf 1 (ELvl ErrorL)) 7].
+Lemma hook_once_orig_refuted : ~ hook_once_orig_full.
+Proof. intros H. specialize (H w0 hook_witness InfoL). vm_compute in H. discriminate H. Qed.
+
+(* (#6) multiCore.Level started its minimum at _maxLevel: a tee with every branch disabled
+   reports FatalLevel although nothing is delivered at fatal *)
+Definition level_consistent_orig_full : Prop :=
+  forall w c, level_ok w c (level_of_orig w c).
+Definition never : enabler := EFn (fun _ => false).
+Definition tee_witness : core := Tee [Leaf 0 never; Leaf 1 never].
+Lemma tee_level_orig_refuted : ~ level_consistent_orig_full.
+Proof.
+  intros H. destruct (H w0 tee_witness) as [_ Hb]. vm_compute in Hb. apply Hb; reflexivity.
+Qed.
+
+(* (#8) levelFilterCore.Enabled answered from its own enabler only; NewIncreaseLevelCore validates
+   the valid levels only, so at an out-of-range level the filter claims to be enabled while the
+   wrapped core rejects the entry *)
+Definition enabled_orig_full : Prop :=
+  forall w c l, enabled_orig w c l = accepts w c l.
+Definition valid_only : enabler := EFn is_valid.
+Definition always : enabler := EFn (fun _ => true).
+Definition filter_witness : core := Filter (Leaf 0 valid_only) always.
+Lemma filter_witness_constructible :
+  forallb (fun l => negb (negb (enabled_orig w0 (Leaf 0 valid_only) l) && on w0 always l)) valid_levels = true.
+Proof. vm_compute. reflexivity. Qed.
+Lemma filter_enabled_orig_refuted : ~ enabled_orig_full.
+Proof. intros H. specialize (H w0 filter_witness 100). vm_compute in H. discriminate H. Qed.
+
+(* (new) levelFilterCore.Level returned LevelOf(c.level): once a shared AtomicLevel below the filter
+   is raised, the logger keeps reporting the filter's level although nothing is delivered at it *)
+Definition stale_witness : core := Filter (Leaf 0 (EAtom 0)) (ELvl WarnL).
+Lemma stale_witness_constructible :
+  forallb (fun l => negb (negb (enabled_orig w0 (Leaf 0 (EAtom 0)) l) && on w0 (ELvl WarnL) l)) valid_levels = true.
+Proof. vm_compute. reflexivity. Qed.
+Definition stale_world : world := set_cell w0 0%nat ErrorL.        (* ... then SetLevel(error) *)
+Lemma filter_level_orig_refuted :
+  level_of_orig stale_world stale_witness = WarnL /\ delivered stale_world stale_witness WarnL = [] /\
+  ~ level_ok stale_world stale_witness (level_of_orig stale_world stale_witness).
+Proof.
+  split; [reflexivity|]. split; [reflexivity|]. intros [_ Hb]. vm_compute in Hb. apply Hb; reflexivity.
+Qed.
+(* the repaired code on the same witnesses *)
+Lemma witnesses_fixed :
+  hooks_of (cores_of (check w0 hook_witness InfoL None)) = [] /\
+  level_of w0 tee_witness = InvalidL /\
+  enabled w0 filter_witness 100 = false /\
+  level_of stale_world stale_witness = ErrorL.
+Proof. vm_compute. repeat split; reflexivity. Qed.
